@@ -145,7 +145,11 @@ def gen_node(rng, depth: int, in_def: bool, sugar: bool, big_ok: bool):
             return ['sizevar', nm]
         if k == 'comptime_push':
             body = [plain_simple(rng) for _ in range(rng.randrange(1, 4))]
+            if DEFINED and rng.random() < 0.3:
+                body.append(gen_macrocall(rng))
             return ['comptime_push', body]
+        if DEFINED and rng.random() < 0.6:
+            return gen_macrocall(rng)
         return gen_macro(rng)
     if r < 0.57:
         return ['nop', rng.choice([92, 93, 100, 127, 128, 200, 254, 255]),
@@ -161,6 +165,17 @@ def plain_simple(rng):
     return ['op', rng.choice(['OP_DUP', 'OP_TRUE', 'OP_FALSE', 'OP_EQUAL',
                               'OP_SHA256', 'OP_SIZE', 'OP_NOT', 'OP_DEPTH',
                               'OP_SWAP2', 'OP_LESS', 'OP_VERIFY'])]
+
+
+DEFINED: list = []     # macros defined so far in the program being generated
+
+
+def gen_macrocall(rng):
+    """a further call of an already defined macro with fresh arguments"""
+    name, kinds = rng.choice(DEFINED)
+    vals = [u8(rng) if k == 'u8' else rbytes(rng, rng.randrange(1, 6))
+            for k in kinds]
+    return ['macrocall', name, vals]
 
 
 def gen_macro(rng):
@@ -184,10 +199,13 @@ def gen_macro(rng):
             template.append(plain_simple(rng))
     if not template or rng.random() < 0.5:
         template.append(plain_simple(rng))
+    DEFINED.append((name, ['u8' if isinstance(v, int) else 'bytes'
+                           for v in argvals]))
     return ['macro', name, argnames, template, argvals]
 
 
 def gen_program(rng, depth=4, maxn=6, sugar=True):
+    DEFINED.clear()
     return gen_block(rng, depth, maxn, False, sugar, True)
 
 
